@@ -369,6 +369,9 @@ func checkC09(rep *core.Report) {
 		}
 		// ---- R09.3 ----
 		checkReserved(r3, sd)
+		if sd.rel == "netflow/v9" {
+			checkUnassignableIDs(rep.Prog, r3, sd)
+		}
 	}
 	checkReaderFailureStoreFree(rep, r5)
 	// a short read must fail: every access of the byte reader stays within the buffer's length (not its capacity:
@@ -548,6 +551,86 @@ func checkReserved(r3 *core.RuleRun, sd *setDecoder) {
 	r3.Check(len(lo.calls) > 0 && len(hi.calls) > 0, fname+":reserved-bounds", fn.Pos(), "ids 3 and 256 are decoded: the reserved range is 4..255",
 		fmt.Sprintf("set id 3 reaches %v and set id 256 reaches %v: the range treated as reserved is wider than 4..255 (RFC 7011 3.3.2 / RFC 3954 5.1), sets that carry records are skipped", lo.calls, hi.calls))
 	r3.OK(fname+":reserved-to-skip", fn.Pos(), "reserved ids go straight to the skip")
+}
+
+// checkUnassignableIDs (R09.3, NetFlow v9): flowset ids 2 and 3 are reserved by RFC 3954 like 4..255, but the
+// decoder has no test for them: no template can carry such an id (templates are numbered from 256), so they reach the
+// record decoder with the empty template. Such a set is skipped like the other reserved ones only if (a) under these
+// ids the record loop reaches nothing but the record decoder, and (b) the record decoder, when it iterates over no
+// field at all, returns without a fatal error (the caller then reports the empty record as non-fatal and skips).
+func checkUnassignableIDs(prog *core.Program, r3 *core.RuleRun, sd *setDecoder) {
+	fn := sd.decodeSet
+	fname := core.FuncName(fn)
+	if sd.decodeDat == nil {
+		return
+	}
+	var loop *core.Loop
+	allInstrs(fn, func(ins ssa.Instruction) {
+		if c, ok := ins.(*ssa.Call); ok && c.Common().StaticCallee() == sd.decodeDat {
+			loop = core.LoopOf(fn, c)
+		}
+	})
+	if loop == nil {
+		return
+	}
+	for _, id := range []int64{2, 3} {
+		fold := foldedEdges(isSetIDValue, id)
+		w := core.Walk{EdgeOK: func(b *ssa.BasicBlock, si int) bool {
+			if b.Succs[si] == loop.Header || !loop.Blocks[b.Succs[si]] {
+				return false
+			}
+			return fold(b, si)
+		}}
+		var parsers []string
+		for i := range w.ReachInstrs(loop.Header.Instrs[0]) {
+			if cc, ok := i.(*ssa.Call); ok && cc.Common().StaticCallee() != nil && prog.IsRepoFunc(cc.Common().StaticCallee()) {
+				if n := cc.Common().StaticCallee().Name(); strings.HasPrefix(n, "unmarshal") {
+					parsers = append(parsers, n)
+				}
+			}
+		}
+		r3.Check(len(parsers) == 0, fmt.Sprintf("%s:id%d-parses-nothing", fname, id), fn.Pos(), "reaches no template parser",
+			fmt.Sprintf("flowset id %d (reserved, RFC 3954 5.1) reaches %v: a reserved set is interpreted as templates", id, parsers))
+	}
+	// (b) the record decoder over an empty template: returns reachable without entering a loop
+	dd := sd.decodeDat
+	inLoop := map[*ssa.BasicBlock]bool{}
+	headers := map[*ssa.BasicBlock]*core.Loop{}
+	for _, l := range core.NaturalLoops(dd) {
+		headers[l.Header] = l
+		for b := range l.Blocks {
+			if b != l.Header {
+				inLoop[b] = true
+			}
+		}
+	}
+	seen := map[*ssa.BasicBlock]bool{}
+	stack := []*ssa.BasicBlock{dd.Blocks[0]}
+	bad := token.NoPos
+	for len(stack) > 0 {
+		b := stack[len(stack)-1]
+		stack = stack[:len(stack)-1]
+		if seen[b] || inLoop[b] {
+			continue
+		}
+		seen[b] = true
+		if r, ok := b.Instrs[len(b.Instrs)-1].(*ssa.Return); ok && len(r.Results) > 0 {
+			ev := r.Results[len(r.Results)-1]
+			fatal := true
+			if c, isC := ev.(*ssa.Const); isC && c.IsNil() {
+				fatal = false
+			}
+			if mi, isMI := ev.(*ssa.MakeInterface); isMI && sd.nonfatal != nil && types.Identical(mi.X.Type(), sd.nonfatal) {
+				fatal = false
+			}
+			if fatal {
+				bad = r.Pos()
+			}
+		}
+		stack = append(stack, b.Succs...)
+	}
+	r3.Check(bad == token.NoPos, core.FuncName(dd)+":empty-template-not-fatal", dd.Pos(), "over an empty template the record decoder returns no fatal error",
+		"over a template without fields the record decoder returns a fatal error ("+prog.Pos(bad)+"): flowsets with the reserved ids 2 and 3, which always come with the empty template, then make the whole datagram fail instead of being skipped")
 }
 
 func (sd *setDecoder) skipGuardReachedFrom(b *ssa.BasicBlock) bool { return true }
